@@ -1463,6 +1463,7 @@ def run(ctx: Ctx) -> None:
         + [by_id["run_experiment"]]
     flaky = []
     improved = 0
+    shown = {}
     for o in ordered:
         fam = o["fam"]
         ctx.add("evaluations", o["runs"])
@@ -1475,7 +1476,9 @@ def run(ctx: Ctx) -> None:
                  cpu_s=o.get("cpu_s", 0.0),
                  **{"status_" + k: v for k, v in o["status"].items()})
         for s in o["samples"]:
-            ctx.sample(s, 14)
+            if shown.get(fam, 0) < 2:       # two samples per family
+                shown[fam] = shown.get(fam, 0) + 1
+                ctx.sample(s, 16)
         flaky += o["flaky"]
         for sig, text, rep in o["viol"]:
             ctx.violation(sig, text, rep)
